@@ -118,9 +118,8 @@ impl StringBuiltin {
 
     #[inline]
     pub fn to_lowercase<'arena>(s: &str, arena: &'arena Arena) -> ArenaString<'arena> {
-        let mut buffer = ArenaString::with_capacity_in(s.len(), arena);
-        s.chars().flat_map(char::to_lowercase).for_each(|ch| buffer.push(ch));
-        buffer
+        // Lowercasing is not a per-character mapping: a sigma at the end of a word has its own form.
+        ArenaString::from_str(arena, &s.to_lowercase())
     }
 
     #[inline]
